@@ -1,6 +1,7 @@
 import Pegnet.Sync
 import Pegnet.Codec
 import Pegnet.Json
+import Pegnet.JsonEnc
 import Pegnet.VersionLock
 /-
   Line protocol driver: one command per line on stdin, one answer line on stdout (a dump is a
@@ -415,6 +416,18 @@ def step (st : St) (line : String) : St × List String :=
       (st, [match r with
             | none => "err"
             | some l => "ok " ++ toString l.length ++ String.join (l.map fun x => " " ++ x.1 ++ " " ++ toString x.2)])
+    | _ => (st, ["bad-op"])
+  | "encode" :: rest =>
+    -- encode <tx-entry tokens…> → the content `json.Marshal(TransactionBatch)` writes (addresses
+    -- written as their 64 hex digits), or refused
+    match txEntry.run rest with
+    | some (e, []) =>
+      (st, [match e.parsed with
+            | none => "unparsed"
+            | some (v, txs) =>
+              match encBatch st.P (fun a => ("\"" ++ a ++ "\"", a)) v txs with
+              | none => "refused"
+              | some j => "ok " ++ J.text j])
     | _ => (st, ["bad-op"])
   | "json" :: rest =>
     -- json <token tree>  → decoded batch as `TransactionBatch.UnmarshalJSON` leaves it, or reject
